@@ -40,6 +40,11 @@ class Lib:
                 return P.ex(a0)
             if op == '=':
                 return '(%s = %s)' % (P.ex(a0), P.ex(args[1]))
+        if c0 in ('scalar', 'enum') and len(args) == 2 and op in ('<', '>', '<=', '>=', '==', '!=', '+', '-', '|', '&', '^', '+=', '-=', '|=', '&=', '='):
+            # class types that the table maps to scalars (std::fpos, std::ios_base::openmode, ...)
+            return '(%s %s %s)' % (P.ex(a0), op, P.ex(args[1]))
+        if c0 in ('scalar', 'enum') and len(args) == 1 and op in ('~', '-', '!'):
+            return '(%s%s)' % (op, P.paren(P.ex(a0)))
         if c0 == 'sp':
             if op == '->': return P.ex(a0)
             if op == '*': return '(*%s)' % P.paren(P.ex(a0))
@@ -78,6 +83,8 @@ class Lib:
             return 'str_concat(%s, %s)' % (self.as_sv(P, a0), self.as_sv(P, args[1]))
         if c0 in ('ptr',) and op in ('==', '!=') and self.tr.category(P.ty(args[1])) in ('str', 'sv'):
             return '(%ssv_eq(%s, %s))' % ('!' if op == '!=' else '', self.as_sv(P, a0), self.as_sv(P, args[1]))
+        if c0 == 'opaque' and op == '=':
+            return '(%s = %s)' % (P.ex(a0), P.ex(args[1]))
         if c0 == 'sstream' and op == '<<':
             t1 = P.ty(args[1]); c1 = self.tr.category(t1)
             if c1 in ('str', 'sv') or (c1 == 'ptr'):
@@ -120,6 +127,8 @@ class Lib:
         def objval():
             return ('(*%s)' % P.paren(P.ex(obj))) if is_arrow else P.ex(obj)
         A = [a for a in args]
+        if cat == 'scalar' and name.startswith('operator '):
+            return objval()     # conversion operator of a class the table maps to a scalar (std::fpos -> streamoff)
         if cat == 'il':
             if name == 'begin': return '%s.data' % P.paren(objval())
             if name == 'end': return '(%s.data + %s.size)' % (P.paren(objval()), P.paren(objval()))
@@ -146,6 +155,11 @@ class Lib:
             if name == 'clear': return 'vec_%s_clear(%s)' % (m, objaddr())
             if name == 'reserve':
                 return '((void)0)'
+            if name == 'resize' and len(A) == 1:
+                return 'vec_%s_resize(%s, %s)' % (m, objaddr(), P.ex(A[0]))
+            if name == 'operator=' and len(A) == 1:
+                self.tr.dropped.add('vector assignment is a shallow struct copy in the C model')
+                return '(%s = %s)' % (objval(), P.ex(A[0]))
         if cat == 'opt':
             m = self.M(t)
             if name == 'has_value': return '%s.has' % P.paren(objval())
@@ -192,6 +206,7 @@ class Lib:
             if name == 'back': return '(*str_back(%s))' % objaddr()
             if name == 'at':
                 P.note_throw(); return '(*str_at_checked(%s, %s))' % (objaddr(), P.ex(A[0]))
+            if name == 'operator=' and len(A) == 1: return 'str_assign(%s, %s)' % (objaddr(), self.as_sv(P, A[0]))
             if name == 'compare' and len(A) == 1: return 'sv_compare(str_view(%s), %s)' % (objaddr(), self.as_sv(P, A[0]))
             if name == 'resize' and len(A) == 1: return 'str_resize(%s, %s)' % (objaddr(), P.ex(A[0]))
         if cat == 'riter':
@@ -203,6 +218,8 @@ class Lib:
             return self.fstream_method(P, n, name, objaddr, A)
         if cat == 'sstream':
             if name == 'str' and not A: return 'strbuf_str(%s)' % objaddr()
+        if cat == 'opaque' and name == 'operator=' and len(A) == 1:
+            return '(%s = %s)' % (objval(), P.ex(A[0]))
         raise Unsupported('%s: no library mapping for method %s on %r (category %s)' % (P.cname, name, t, cat))
 
     def fstream_method(self, P, n, name, objaddr, A):
@@ -215,7 +232,7 @@ class Lib:
         if name in ('good', 'eof', 'fail', 'bad', 'is_open', 'clear', 'close', 'get', 'peek'):
             return 'vfile_%s(%s%s)' % (name, objaddr(), ''.join(', ' + P.ex(a) for a in A))
         if name == 'open':
-            return 'vfile_open(%s, %s, %s)' % (objaddr(), self.as_sv(P, A[0]), P.ex(A[1]) if len(A) > 1 else '0')
+            return '(*%s = vfile_open_path(%s))' % (objaddr(), P.ex(A[1]) if len(A) > 1 else '8')
         if name == 'operator bool': return 'vfile_good(%s)' % objaddr()
         if name == 'write':
             return 'vfile_write(%s, %s, %s)' % (objaddr(), P.ex(A[0]), P.ex(A[1]))
@@ -280,6 +297,10 @@ class Lib:
             if not A: return 'strbuf_empty()'
         if cat == 'fstream':
             if not A: return '((vfile){0})'
+            if len(A) == 2: return 'vfile_open_path(%s)' % P.ex(A[1])
+        if cat == 'opaque':
+            if not A: return '((%s){0})' % cty
+            if len(A) == 1 and same(): return P.ex(A[0])
         raise Unsupported('%s: no library mapping for constructing %r from %d args' % (P.cname, t, len(A)))
 
     def init_list(self, P, n, t, cat, items):
@@ -317,6 +338,8 @@ class Lib:
             rest = [a for a in args[1:] if a.get('kind') != 'CXXDefaultArgExpr']
             if rest: raise Unsupported('%s: %s with position/base arguments' % (P.cname, name))
             return '%s(%s)' % (self.THROWING[name], self.as_sv(P, args[0]))
+        if name == 'exists' and len(args) == 1 and self.tr.category(P.ty(args[0])) == 'opaque':
+            return 'g_fs_exists'
         if name in ('move', 'forward'):
             return P.ex(args[0])
         if name in ('make_shared', 'make_unique'):
